@@ -49,27 +49,26 @@ impl Prop for C05 {
         Val::L(vec![Val::I(mode), Val::L(xs), Val::u(w), Val::L(choices)])
     }
 
-    fn exhaustive(&mut self, _tier: Tier) -> Vec<Val> {
-        // all choice lists of length L over {0..3} for small shapes: every schedule prefix
+    fn exhaustive(&mut self, tier: Tier) -> Vec<Val> {
+        self.exhaustive_shard(tier, 0, 1).unwrap_or_default()
+    }
+
+    /// every maximal schedule (modulo stutters) of the REAL threads for tiny shapes, found by
+    /// stateless depth-first re-execution; (1,2), (1,3), (2,2) completely, larger shapes up to a cap
+    fn exhaustive_shard(&mut self, _tier: Tier, k: usize, m: usize) -> Option<Vec<Val>> {
         let mut v = vec![];
-        for (n, w, len) in [(2usize, 2usize, 7usize), (3, 2, 6), (2, 3, 6)] {
-            let total = 4usize.pow(len as u32);
-            for code in 0..total {
-                let mut c = code;
-                let mut ch = vec![];
-                for _ in 0..len {
-                    ch.push(Val::u(c % 4));
-                    c /= 4;
-                }
+        for (n, w, cap) in [(1usize, 2usize, 100_000usize), (1, 3, 100_000), (2, 2, 100_000), (3, 2, 40_000), (2, 3, 40_000)] {
+            let xs: Vec<i64> = (0..n).map(|i| i as i64 + 5).collect();
+            for ch in enumerate_pipe_schedules_shard(&xs, w, None, cap / m + 1, k, m) {
                 v.push(Val::L(vec![
                     Val::I(0),
-                    Val::L((0..n).map(|i| Val::I(i as i64 + 5)).collect()),
+                    Val::L(xs.iter().map(|x| Val::I(*x)).collect()),
                     Val::u(w),
-                    Val::L(ch),
+                    Val::L(ch.into_iter().map(Val::u).collect()),
                 ]));
             }
         }
-        v
+        Some(v)
     }
 
     fn run(&mut self, input: &Val) -> Option<(Val, Vec<String>)> {
@@ -116,5 +115,14 @@ impl Prop for C05 {
 }
 
 fn main() {
+    let args: Vec<String> = std::env::args().collect();
+    if args.get(1).map(|s| s.as_str()) == Some("count-schedules") {
+        let g = |i: usize| args.get(i).and_then(|s| s.parse::<usize>().ok()).unwrap_or(0);
+        let xs: Vec<i64> = (0..g(2)).map(|i| i as i64 + 5).collect();
+        let t0 = std::time::Instant::now();
+        let s = enumerate_pipe_schedules(&xs, g(3), None, g(4));
+        println!("n={} w={} schedules={} in {:?}", g(2), g(3), s.len(), t0.elapsed());
+        return;
+    }
     main_loop(C05);
 }
